@@ -246,6 +246,16 @@ class Sched:
             except Hang:
                 result["hang"] = True
                 raise
+            except SchedAbort:
+                raise
+            except BaseException:
+                # the script's own thread died of something the harness did not expect: say so (the caller sees a session that
+                # ended early)
+                import traceback
+                result["exc"] = traceback.format_exc()
+                sys.stderr.write("harness: the script thread ended with an exception\n" + result["exc"])
+                sys.stderr.flush()
+                raise
         self.spawn("main", main)
         main_id = [t for t, n in self.names.items() if n == "main"][0]
         try:
